@@ -61,7 +61,7 @@ pos("cmpsym-deccmp-same-direction",D,"	case x[i] < y[i]:\n		r = -1\n	case x[i] >
 pos("cmpsym-ucmp-words-before-exp",X,"	switch {\n	case x.exp < y.exp:\n		return -1\n	case x.exp > y.exp:\n		return +1\n	}\n	// x.exp == y.exp\n\n	// compare mantissas\n	i := len(x.mant)","	// compare mantissas\n	i := len(x.mant)","CMPSYM","ucmp")
 
 # NORM
-pos("norm-setfloat64-final-round-removed",X,"		z.prec--\n	}\n	z.round(0)\n	return z\n}\n\n// SetInf","		z.prec--\n	}\n	return z\n}\n\n// SetInf","NORM","SetFloat64",quick=True)
+pos("norm-setfloat64-final-round-removed",X,"		z.prec = prec\n	}\n	z.round(0)\n	return z\n}\n\n// SetInf","		z.prec = prec\n	}\n	return z\n}\n\n// SetInf","NORM","SetFloat64",quick=True)
 pos("norm-setbits64-no-rounding",X,"	z.mant = z.mant.setUint64(x)\n	z.setExpAndRound(limitExp(exp)+int64(len(z.mant))*_DW-dnorm(z.mant), 0)\n	return z","	z.mant = z.mant.setUint64(x)\n	z.exp = int32(len(z.mant))*_DW - int32(dnorm(z.mant))\n	return z","NORM","setBits64")
 pos("norm-setint-no-dnorm",X,"	z.setExpAndRound(int64(len(z.mant))*_DW-dnorm(z.mant), 0)\n	return z\n}\n\nfunc (z *Decimal) setBits64","	z.setExpAndRound(int64(len(z.mant))*_DW, 0)\n	return z\n}\n\nfunc (z *Decimal) setBits64","NORM","SetInt")
 # EXP
